@@ -40,10 +40,12 @@ TBlock == /\ Ev("Block")
           /\ LET ev == Log[l] IN
              Outcome(ev, BlockOK(ev.A, ev.B, ev.C, ev.D),
                      IF BlockOK(ev.A, ev.B, ev.C, ev.D) THEN Block(ev.A, ev.B, ev.C, ev.D) ELSE 0)
+TBlockG == /\ Ev("BlockG")
+           /\ LET ev == Log[l] IN Outcome(ev, GridOK(ev.G), IF GridOK(ev.G) THEN BlockGrid(ev.G) ELSE 0)
 \* scalars that are not powers of two (3, -7, 0.1), subnormal or huge: division distributes over the entries to rounding (2 ulp),
 \* finite quotients are finite, every spelling
 TCorner == /\ Ev("Corner") /\ Log[l].fin /\ Log[l].ulps <= 2
-Next == TOp \/ TIdx \/ TBlock \/ TCorner
+Next == TOp \/ TIdx \/ TBlock \/ TBlockG \/ TCorner
 Spec == Init /\ [][Next]_l
 TraceAccepted == TLCGet("stats").diameter - 1 = Len(Log)
 =============================================================================
